@@ -11,4 +11,5 @@ pub mod lockstep;
 #[cfg(not(feature = "nolock"))]
 pub mod sched;
 pub mod spec;
+pub mod twins;
 pub mod universe;
